@@ -56,6 +56,11 @@
     tagged (sender, receiver).  The merge of a connection's direct replies with the lines
     arriving through its queue is decided by its `select!` loop and is not modelled (a queued
     line can be delivered late, never early).
+  * The direct replies of a split command are appended to `dir c` by the section that writes them
+    (the real buffer is flushed when the command ends).  At most one section of a split command
+    writes replies and nobody else writes `dir c`, so the stream is the same.
+  * `Section.nickCheck` carries no `Message`: the message is only used by the REGISTERED `NICK`
+    (the rename broadcast), which is one write-lock section (`Section.whole`).
   * Connection set-up, the kill-signal settling and ping/pong timers are not sections of this
     semantics (`Irc.step` / C17); `Section.teardown` (`remove_user` + drop of the `ConnState`,
     one write-lock section) is included so that "other connections' sections" may free nicks.
@@ -193,6 +198,11 @@ def execSection (cfg : Cfg) : Section → TCtx → TCtx
 def nickSections (c : Nat) (n : Str) : List Section :=
   [.nickCheck c n, .authDecide c, .authCommit c]
 
+/-- the unregistered `NICK n` of `c` with other sections `F` between A1 and A2 and `G` between
+    A2 and A3 -/
+def nickInterleaved (c : Nat) (n : Str) (F G : List Section) : List Section :=
+  .nickCheck c n :: (F ++ .authDecide c :: (G ++ [.authCommit c]))
+
 /-- Which sections a command consists of.  `auth` is the connection's own `authenticated` flag
     at the start of the command (connection-local, so the task knows it). -/
 def splitCommand (auth : Bool) (c : Nat) (line : Str) : List Section :=
@@ -281,6 +291,28 @@ structure SecIndep (cfg : Cfg) (c : Nat) (s : Section) : Prop where
     execSection cfg s ⟨p, x.setConn cn⟩ =
       ⟨(execSection cfg s ⟨p, x⟩).pc, (execSection cfg s ⟨p, x⟩).x.setConn cn⟩
   conn_eq : ∀ p x, (execSection cfg s ⟨p, x⟩).x.w.conn? c = x.w.conn? c
+
+/-! ### notions used by the statements of C18 -/
+
+/-- the EARLY outcomes of an unregistered `NICK n` of a connection with record `cn` started in
+    world `w`: its serialisation point is A1 — the command never touches the shared state, so
+    it does not matter what the others do afterwards.  (Not an unregistered NICK at all / nick
+    taken at A1 / decision of A2 not "good".) -/
+def Early (cfg : Cfg) (n : Str) (cn : Conn) (w : World) : Prop :=
+  cn.authenticated = true ∨ Map.contains n w.users = true ∨
+    ∀ r, authDecision cfg (cn.setNick n) ≠ .decided true r
+
+/-- the record of `c` after the corner case (nick free at A1, taken at A3): the refused nick stays
+    recorded (`nick`, `source`), `registered` is the configured-user flag, still unauthenticated -/
+def cornerConn (cn : Conn) (n : Str) (r : Bool) : Conn :=
+  { cn.setNick n with registered := r }
+
+/-- `W` is what the three sections of connection `c`'s `NICK n` make of `σ` when `c` wins -/
+structure Won (c : Nat) (n : Str) (σ W : CState) : Prop where
+  taken : Map.contains n W.w.users = true
+  owner : ∃ u, Map.lookup n W.w.users = some u ∧ u.owner = c
+  conn : ∃ cn', W.w.conn? c = some cn' ∧ cn'.authenticated = true ∧ cn'.nick = some n
+  others : ∀ d, d ≠ c → W.w.conn? d = σ.w.conn? d ∧ W.pc d = σ.pc d ∧ W.dir d = σ.dir d
 
 /-! ### interleavings -/
 
